@@ -87,20 +87,21 @@ def step (d : DState) (line : String) : DState × String :=
         | none => (d, "skip")
       else (d, "skip")
     | none => (d, "bad-op")
-  | tidS :: "atm" :: _site :: op :: _ord :: loc :: exp :: new :: obs :: ok :: _ =>
+  | tidS :: "atm" :: _site :: op :: ordS :: loc :: exp :: new :: obs :: ok :: _ =>
     match muOfLoc loc, tidS.toNat? with
     | some m, some t =>
+      let ord : Ord := if ordS == "acq" then .acq else if ordS == "rel" then .rel else if ordS == "ar" then .ar else .rlx
       match op with
       | "ld" => match obs.toNat? with
         | some v => feed d m (.ld t v) "ld"
         | none => (d, "bad-op")
       | "st" => match new.toNat? with
-        | some v => feed d m (.st t v) ("st:" ++ deltaKey (lookup d.mus m) v)
+        | some v => feed d m (.st t v ord) ("st:" ++ deltaKey (lookup d.mus m) v)
         | none => (d, "bad-op")
       | "cas" => match exp.toNat?, new.toNat?, obs.toNat? with
         | some e, some n, some o =>
           if ok == "1" then
-            if e == o then feed d m (.cas t e n) ("cas:" ++ deltaKey (lookup d.mus m) n)
+            if e == o then feed d m (.cas t e n ord) ("cas:" ++ deltaKey (lookup d.mus m) n)
             else (d, s!"REJECT MuX {m}: CAS reported success with obs ≠ exp")
           else feed d m (.casFail t e o) "casFail"
         | _, _, _ => (d, "bad-op")
